@@ -91,16 +91,17 @@ func (d *wrappedSlidingWindowDetector) Check(seq uint64) (func() bool, bool) {
 		// Exceeded upper limit.
 		return nop, false
 	}
+	latestSeq := d.latestSeq
 	if !d.init {
+		// Nothing accepted yet: the window is positioned by the first accept().
 		if seq != 0 {
-			d.latestSeq = seq - 1
+			latestSeq = seq - 1
 		} else {
-			d.latestSeq = d.maxSeq
+			latestSeq = d.maxSeq
 		}
-		d.init = true
 	}
 
-	diff := int64(d.latestSeq) - int64(seq) //nolint:gosec // GG115 TODO check
+	diff := int64(latestSeq) - int64(seq) //nolint:gosec // GG115 TODO check
 	// Wrap the number.
 	if diff > int64(d.maxSeq)/2 { //nolint:gosec // GG115 TODO check
 		diff -= int64(d.maxSeq + 1) //nolint:gosec // GG115 TODO check
@@ -120,6 +121,10 @@ func (d *wrappedSlidingWindowDetector) Check(seq uint64) (func() bool, bool) {
 	}
 
 	return func() bool {
+		if !d.init {
+			d.latestSeq = latestSeq
+			d.init = true
+		}
 		latest := false
 		bit := diff
 		if diff < 0 {
